@@ -137,9 +137,18 @@ Proof.
   - assumption.
 Qed.
 
+Lemma remote_close_inv w i : WInv w -> WInv (remote_close w i).
+Proof.
+  intros W. pose proof W as [Ws Wr Wg]. unfold remote_close.
+  destruct (nth_error (ss w) i) as [s|] eqn:E; [|assumption]. destruct (conn_open s) eqn:Ec; [|assumption].
+  apply (winv_set w i s); auto.
+  + apply (sinv_mod (close_sess s)); cbn; auto. apply sinv_close. eauto.
+  + intros p. rewrite <- (h_close p s). reflexivity.
+Qed.
+
 Lemma step_inv w l : WInv w -> WInv (step w l).
 Proof.
-  intros W. pose proof W as [Ws Wr Wg]. destruct l as [p q n|i|i|i|i k|i k|i|i|p]; cbn [step].
+  intros W. pose proof W as [Ws Wr Wg]. destruct l as [p q n|i|i|i|i k|i k|i|i|i ev|p]; cbn [step].
   - (* LOpen *)
     unfold tbl_acquire. destruct (tbl_get p (tbl w)) as [c|] eqn:E; constructor; cbn.
     + intros j y Hj. destruct (nth_error_app_cases j y (ss w) _ Hj) as [Hj'|Hj']; [eauto|].
@@ -164,11 +173,7 @@ Proof.
   - (* LClose *)
     destruct (nth_error (ss w) i) as [s|] eqn:E; [|assumption].
     apply (winv_set w i s); auto using sinv_close, h_close. apply sinv_close. eauto.
-  - (* LRemote *)
-    destruct (nth_error (ss w) i) as [s|] eqn:E; [|assumption]. destruct (conn_open s) eqn:Ec; [|assumption].
-    apply (winv_set w i s); auto.
-    + apply (sinv_mod (close_sess s)); cbn; auto. apply sinv_close. eauto.
-    + intros p. rewrite <- (h_close p s). reflexivity.
+  - (* LRemote *) apply remote_close_inv. assumption.
   - (* LLambda *)
     destruct (nth_error (ss w) i) as [s|] eqn:E; [|assumption]. destruct (posted s) eqn:Ep; [|assumption].
     destruct (Ws _ _ E) as (A & B & C & D & F). specialize (C Ep). destruct (F C) as [Fb Fq].
@@ -230,6 +235,7 @@ Proof.
                            streams := streams s; conn_open := conn_open s; bm := bm s; qmap := qmap s; inflight := n |})).
       { apply (winv_set w i s); auto. apply (sinv_mod s); cbn; eauto. }
       destruct W' as [A1 A2 A3]. unfold set_sess, refcount in *. cbn in *. rewrite Eq in A1, A2. constructor; unfold refcount; cbn; auto.
+  - (* LEvent *) destruct (reports_remote_close ev); [apply remote_close_inv|]; assumption.
   - (* LOpenFail: acquire, then release exactly that reference *)
     unfold tbl_acquire, tbl_release. pose proof (Wr p) as Wrp. unfold refcount in Wrp.
     pose proof (holders_nonneg p (ss w)) as Hn.
@@ -382,10 +388,10 @@ Definition quiet_label (l : label) : bool := match l with LEnter _ => false | _ 
 Lemma faults_need_inflight w l : faults (step w l) = faults w \/
   exists i s n, l = LAccess i /\ nth_error (ss w) i = Some s /\ inflight s = S n /\ qmap s = None.
 Proof.
-  destruct l as [p q n|i|i|i|i k|i k|i|i|p]; cbn [step].
+  destruct l as [p q n|i|i|i|i k|i k|i|i|i ev|p]; cbn [step].
   - unfold tbl_acquire. destruct (tbl_get p (tbl w)); left; reflexivity.
   - destruct (nth_error (ss w) i); left; reflexivity.
-  - destruct (nth_error (ss w) i) as [s|]; [destruct (conn_open s)|]; left; reflexivity.
+  - unfold remote_close. destruct (nth_error (ss w) i) as [s|]; [destruct (conn_open s)|]; left; reflexivity.
   - destruct (nth_error (ss w) i) as [s|]; [|left; reflexivity]. destruct (posted s); [|left; reflexivity].
     destruct (bm s); [unfold tbl_release; destruct (tbl_get z (tbl w)); [destruct (z0 - 1 <=? 0)|]|]; left; reflexivity.
   - destruct (nth_error (ss w) i) as [s|]; [|left; reflexivity]. destruct (nth_error (streams s) k) as [st|]; [|left; reflexivity].
@@ -395,19 +401,26 @@ Proof.
   - destruct (nth_error (ss w) i) as [s|]; [|left; reflexivity]. destruct (existsb _ (streams s)); left; reflexivity.
   - destruct (nth_error (ss w) i) as [s|] eqn:E; [|left; reflexivity]. destruct (inflight s) as [|n] eqn:Ei; [left; reflexivity|].
     destruct (qmap s) eqn:Eq; [left; reflexivity|]. right. exists i, s, n. auto.
+  - left. destruct (reports_remote_close ev); [|reflexivity].
+    unfold remote_close. destruct (nth_error (ss w) i) as [s|]; [destruct (conn_open s)|]; reflexivity.
   - left. destruct (tbl_acquire p (tbl w) (creates w)) as [t cr]. destruct (tbl_release p t (unmaps w)) as [t' um]. reflexivity.
 Qed.
 
 Definition no_inflight (w : world) : Prop := forall i s, nth_error (ss w) i = Some s -> inflight s = O.
+Lemma no_inflight_remote w i : no_inflight w -> no_inflight (remote_close w i).
+Proof.
+  intros N j y Hj. unfold remote_close in Hj.
+  destruct (nth_error (ss w) i) as [s|] eqn:E; [|eauto]. destruct (conn_open s); [|eauto]. cbn in Hj. apply nth_error_upd in Hj.
+  destruct Hj as [[_ ->]|Hj]; [|eauto]. unfold close_sess. destruct (sd s); cbn; eauto.
+Qed.
 Lemma no_inflight_step w l : quiet_label l = true -> no_inflight w -> no_inflight (step w l).
 Proof.
-  intros Hq N. destruct l as [p q n|i|i|i|i k|i k|i|i|p]; try discriminate; cbn [step]; intros j y Hj.
+  intros Hq N. destruct l as [p q n|i|i|i|i k|i k|i|i|i ev|p]; try discriminate; cbn [step]; intros j y Hj.
   - unfold tbl_acquire in Hj. destruct (tbl_get p (tbl w)); cbn in Hj;
       (apply nth_error_app_cases in Hj; destruct Hj as [Hj|Hj]; [eauto|subst y; reflexivity]).
   - destruct (nth_error (ss w) i) as [s|] eqn:E; [|eauto]. cbn in Hj. apply nth_error_upd in Hj.
     destruct Hj as [[_ ->]|Hj]; [|eauto]. unfold close_sess. destruct (sd s); cbn; eauto.
-  - destruct (nth_error (ss w) i) as [s|] eqn:E; [|eauto]. destruct (conn_open s); [|eauto]. cbn in Hj. apply nth_error_upd in Hj.
-    destruct Hj as [[_ ->]|Hj]; [|eauto]. unfold close_sess. destruct (sd s); cbn; eauto.
+  - revert Hj. apply no_inflight_remote. assumption.
   - destruct (nth_error (ss w) i) as [s|] eqn:E; [|eauto]. destruct (posted s); [|eauto].
     destruct (match bm s with Some p => tbl_release p (tbl w) (unmaps w) | None => (tbl w, unmaps w) end) as [t um].
     cbn in Hj. apply nth_error_upd in Hj. destruct Hj as [[_ ->]|Hj]; [cbn|]; eauto.
@@ -418,6 +431,7 @@ Proof.
     destruct (st_incb st); [|eauto]. cbn in Hj. apply nth_error_upd in Hj.
     destruct Hj as [[_ ->]|Hj]; [cbn|]; eauto.
   - destruct (nth_error (ss w) i) as [s|] eqn:E; [|eauto]. rewrite (N _ _ E) in Hj. eauto.
+  - destruct (reports_remote_close ev); [|eauto]. revert Hj. apply no_inflight_remote. assumption.
   - destruct (tbl_acquire p (tbl w) (creates w)) as [t cr]. destruct (tbl_release p t (unmaps w)) as [t' um]. cbn in Hj. eauto.
 Qed.
 
@@ -456,4 +470,36 @@ Proof.
     cbn. split; [reflexivity|]. rewrite tbl_get_set_same. f_equal. lia.
   - intros E. unfold w'. cbn [step]. unfold tbl_acquire, tbl_release. rewrite E, tbl_get_set_same.
     change (1 - 1 <=? 0) with true. cbn. apply tbl_get_del_same.
+Qed.
+
+(* ---- the peer's death as the dispatcher sees it ---- *)
+(* Whatever the first read(2) after the peer's death returns — 0 when the peer had consumed everything,
+   ECONNRESET when bytes this end wrote were still unread in its socket, data, EAGAIN — an event that
+   carries EPOLLRDHUP closes the session: handleEvent tests EPOLLRDHUP before it reads. *)
+Theorem peer_death_event_closes w i s ev :
+  WInv w -> nth_error (ss w) i = Some s -> conn_open s = true -> e_rdhup ev = true ->
+  let w' := step w (LEvent i ev) in
+  exists s', nth_error (ss w') i = Some s' /\ sd s' = true /\ chclosed s' = true /\ conn_open s' = false /\
+             (posted s' = true \/ cleaned s' = true) /\
+             Forall (fun st => st_notified st = true) (streams s') /\ WInv w'.
+Proof.
+  intros W H Hc Hr w'. assert (W' : WInv w') by (apply step_inv; assumption).
+  assert (Hw : w' = remote_close w i) by (unfold w'; cbn [step]; unfold reports_remote_close; rewrite Hr; reflexivity).
+  rewrite Hw in *. unfold remote_close in *. rewrite H, Hc in *.
+  eexists. cbn. split; [eapply nth_error_upd_same; eassumption|]. cbn.
+  pose proof (sinv_close s (w_s _ W _ _ H)) as (A & B & C & D & F).
+  assert (Hsd : sd (close_sess s) = true) by (unfold close_sess; destruct (sd s) eqn:E; [assumption|reflexivity]).
+  destruct (B Hsd) as (B1 & B2 & B3). repeat split; auto.
+  Show.
+Qed.
+
+(* the same without EPOLLRDHUP: an EOF read closes, a read ERROR is swallowed (onReadReady returns with
+   err = nil) — harmless only because the kernel reports a dead peer with EPOLLRDHUP and handleEvent looks
+   at that bit first *)
+Theorem read_eof_closes_read_error_is_silent w i ev :
+  e_rdhup ev = false -> e_in ev = true ->
+  (e_read ev = RdEOF -> step w (LEvent i ev) = remote_close w i) /\
+  (e_read ev = RdErr -> step w (LEvent i ev) = w).
+Proof.
+  intros Hr Hi. split; intros He; cbn [step]; unfold reports_remote_close; rewrite Hr, Hi, He; reflexivity.
 Qed.
